@@ -558,6 +558,9 @@ type CacheGenCase struct {
 	Neighbour  *model.Doc `json:"neighbour"`
 	Normalize  bool       `json:"normalize"`
 	MaxEntries int        `json:"maxEntries"`
+	// AltSalt: from the fifth lookup on, resolvers answer from a world with this salt (other values, other runtime
+	// types at abstract positions, other nulls): a plan that served one set of runtime types meets others
+	AltSalt int `json:"altSalt,omitempty"`
 }
 
 func c06GenOracle(c *CacheGenCase) string {
@@ -571,8 +574,9 @@ func c06GenOracle(c *CacheGenCase) string {
 	}
 	pc := graphql.NewPlanCache(graphql.PlanCacheOptions{Normalize: c.Normalize, MaxEntries: c.MaxEntries})
 	texts := []string{model.Print(ec.Doc, nil).Text, model.Print(c.Neighbour, nil).Text}
+	world := ec.World
 	ctx := func() context.Context {
-		return build.WithSession(context.Background(), &build.Session{W: ec.World, Mutate: c.MutateArgs})
+		return build.WithSession(context.Background(), &build.Session{W: world, Mutate: c.MutateArgs})
 	}
 	// valuations: the case's own variables and its alternatives, cycled through the lookups
 	valuations := []map[string]interface{}{ec.goVars()}
@@ -580,7 +584,12 @@ func c06GenOracle(c *CacheGenCase) string {
 		e2 := ExecCase{Vars: av}
 		valuations = append(valuations, e2.goVars())
 	}
-	for step, which := range []int{0, 1, 0, 1, 0, 0, 1} {
+	for step, which := range []int{0, 1, 0, 1, 0, 0, 1, 0} {
+		if step == 4 && c.AltSalt != 0 {
+			w2 := *ec.World
+			w2.Salt = c.AltSalt
+			world = &w2
+		}
 		text := texts[which]
 		vals := valuations[0]
 		if step >= 2 {
@@ -626,6 +635,10 @@ func TestC06_Gen(t *testing.T) {
 		ec.Layout = nil
 		nb, n := perturbLiterals(ec.Doc, rt)
 		c := &CacheGenCase{MutateArgs: gen.Chance(rt, 40, "mutateArgs"), Base: *ec, Neighbour: nb, Normalize: gen.Chance(rt, 70, "normalize"), MaxEntries: []int{1, 2, 1024}[gen.Uniform(rt, 3, "maxEntries")]}
+		if gen.Chance(rt, 50, "altSalt") {
+			c.AltSalt = 1 + gen.Intn(rt, 0, 1<<20, "altSaltValue")
+			stats.R.Class("gen_other_runtime_values_later")
+		}
 		msg := c06GenOracle(c)
 		stats.R.Class(fmt.Sprintf("gen_normalize_%v", c.Normalize))
 		if n > 0 {
